@@ -88,8 +88,14 @@ def float_linearised(chk: Check, n):
             ys.append(y)
         data = pa.table({"variant": [0] * nc + [1] * nt, "x": np.concatenate(xs), "y": np.concatenate(ys)})
         try:
-            res = tt.Experiment(m=tt.RatioOfMeans("x", "y", alternative=alt, equal_var=ev, use_t=ut, confidence_level=cl)
-                                ).analyze(data)["m"]
+            if k % 2:
+                # explicit options win over the global configuration in force at construction
+                with tt.config_context(alternative=[a for a in ("two-sided", "greater", "less") if a != alt][0],
+                                       equal_var=not ev, use_t=not ut, confidence_level=0.5 if cl != 0.5 else 0.9):
+                    metric = tt.RatioOfMeans("x", "y", alternative=alt, equal_var=ev, use_t=ut, confidence_level=cl)
+            else:
+                metric = tt.RatioOfMeans("x", "y", alternative=alt, equal_var=ev, use_t=ut, confidence_level=cl)
+            res = tt.Experiment(m=metric).analyze(data)["m"]
         except Exception as ex:  # noqa: BLE001
             chk.fail("Experiment.analyze raised on float numerator/denominator data",
                      dict(cell=[alt, ev, ut], zero_numerator_mean=zero, error=repr(ex),
